@@ -435,10 +435,16 @@ def gen_search(rng, m, vocab, base, simple=False, allow_last=False, allow_filter
         if al:
             out[-1] = rng.choice(al)
             feats.add("alias")
+    last_as_query = None
     if allow_last and rng.random() < 0.5:
         j = rng.randrange(1, n) if n > 1 else 0
         out[j] = ">"
         feats.add("last")
+        if rng.random() < 0.25:
+            # the same 'last' written through a query: '.../*/...?version=>'
+            out[j] = "*"
+            last_as_query = "%s=>" % t.keys[j]
+            feats.add("last_as_query")
         if rng.random() < 0.2 and j + 1 < n:
             out[rng.randrange(j + 1, n)] = ">"
             feats.add("last2")
@@ -462,6 +468,11 @@ def gen_search(rng, m, vocab, base, simple=False, allow_last=False, allow_filter
             if rng.random() < 0.15 and len(vals) > 1:
                 v = v + "," + rng.choice([x for x in vals if x != v])
             filt.append("%s=%s%s" % (k, pre, v))
+        if last_as_query:
+            filt.append(last_as_query)
+            last_as_query = None
         s += "?" + "&".join(filt)
         feats.add("filter")
+    if last_as_query:
+        s += "?" + last_as_query
     return s, feats
